@@ -19,9 +19,12 @@ from vlib import Check, make_cfg, run_tlc, Infra
 
 PROP = "C16"
 REF = {"AdminUnchecked": "FALSE", "SuffixRole": "FALSE", "BodyFieldOnly": "FALSE", "PathSplit": "FALSE", "KvOpen": "FALSE",
-       "Unjournaled": "FALSE", "Tids": '{"t1", "t2"}', "MaxOps": 4}
+       "ExactKeys": "FALSE", "Unjournaled": "FALSE", "VerifyCache": "FALSE", "Tids": '{"t1", "t2"}', "MaxOps": 4}
 INV_CASES = ["Inv_Safe", "Inv_Live", "Inv_OnlyAuthentic", "Inv_ReadNeverMutates", "Inv_WriteNeverAdmin", "Inv_NsNeverOther"]
-INV_HIST = ["Inv_RevokedStaysRevoked", "Inv_IssuedKeepsWorking", "Inv_KeyStable"]
+INV_HIST = ["Inv_RevokedStaysRevoked", "Inv_ExpiredStaysExpired", "Inv_IssuedKeepsWorking", "Inv_KeyStable"]
+HIST_FLAGS = ("Unjournaled", "VerifyCache")
+# letter-case variants of the body fields index_name / source_index / target_index
+SPELLINGS = ["Index_Name", "INDEX_NAME", "index_Name"]
 # words middleware.go special-cases at the pinned commit (the current tree's list is parsed and united with it)
 PINNED_WORDS = ["search", "search-with-scores", "get-vectors", "get-links", "get-incoming", "traverse",
                 "extract-subgraph", "search-nodes", "get-node-properties", "get-edges", "get-all-relations",
@@ -30,7 +33,9 @@ PINNED_WORDS = ["search", "search-with-scores", "get-vectors", "get-links", "get
 DEVIATIONS = {"AdminUnchecked": "HasAccess compares the required role only when it is 'write'",
               "SuffixRole": "required role from method + path suffix", "KvOpen": "reserved _sys_auth:: keys served as plain KV",
               "BodyFieldOnly": "namespace of a POST body = its index_name field", "PathSplit": "namespace = 4th piece of the decoded path",
-              "Unjournaled": "signing key / revocation markers not journaled"}
+              "ExactKeys": "index fields of a body looked up by exact lower-case key while handlers match case-insensitively",
+              "Unjournaled": "signing key / revocation markers not journaled",
+              "VerifyCache": "verified-token cache that only re-checks the revocation list (expiry not re-checked)"}
 
 
 def case_id(c):
@@ -82,7 +87,7 @@ def diagnostics(chk):
     out = []
     for flag, what in DEVIATIONS.items():
         consts = dict(REF, **{flag: "TRUE"})
-        if flag == "Unjournaled":
+        if flag in HIST_FLAGS:
             cfg = make_cfg("SpecHist", consts, INV_HIST, constraint="BoundHist")
         else:
             cfg = make_cfg("SpecCases", consts, INV_CASES)
@@ -169,7 +174,8 @@ def run(tier):
         wsel = ["search"] + rng.sample([w for w in words if w != "search"], 2)
     else:
         wsel = words
-    profile = {"repo": vlib.REPO, "seed": vlib.seed(), "words": wsel, "routes_per_shape": 1 if quick else 0,
+    spell = [SPELLINGS[vlib.seed() % len(SPELLINGS)]] if quick else SPELLINGS
+    profile = {"repo": vlib.REPO, "seed": vlib.seed(), "words": wsel, "spellings": spell, "routes_per_shape": 1 if quick else 0,
                "skip_slow": True, "byte_positions": 6 if quick else 0}
     order = {"benign": 0, "reserved": 0, "encoded": 1, "slash": 2, "readword": 3}
     cases.sort(key=lambda c: (order.get(c["name"], 9), c["id"]))
@@ -182,16 +188,30 @@ def run(tier):
     mark("cases")
 
     # ---- 3. restart histories on a real data directory
-    behaviours, n_hist_states = vlib.behaviours_from_corpus(rh.corpus, max_behaviours=160 if quick else None, rng=rng,
-                                                            need=lambda ops: any(o["op"] == "Restart" for o in ops) and any(o["op"] == "Issue" for o in ops))
+    def names(ops):
+        return [o["op"] for o in ops]
+
+    def need_restart(ops):
+        n = names(ops)
+        return "Restart" in n and ("Issue" in n or "IssueShort" in n) and "Expire" not in n
+
+    def need_expire(ops):
+        return "Expire" in names(ops)
+
+    behaviours, n_hist_states = vlib.behaviours_from_corpus(rh.corpus, max_behaviours=160 if quick else 4000, rng=rng, need=need_restart)
+    # histories in which a short-lived token is used, expires (real waiting, ~3 s each) and is used again,
+    # in the same process and across restarts; each runs in its own slot so the waits overlap
+    n_exp = 16 if quick else 160
+    expiring, _ = vlib.behaviours_from_corpus(rh.corpus, max_behaviours=n_exp, rng=rng, need=need_expire)
+    for i, b in enumerate(expiring):
+        b["id"] = "x%d" % i
     if not quick:
         # longer histories: random walks of the same machine
         cfg = make_cfg("SpecHistEmit", dict(REF, MaxOps=9), [], constraint="BoundHist")
         rw = run_tlc("Auth", "Auth_walks.cfg", cfg_text=cfg, workers=1, timeout=300, simulate=400, depth=10, seed_=vlib.seed())
         chk.cov["tlc_runs"].append({"config": "Auth_walks", "mode": "simulate", "walks": 400, "depth": 10,
                                     "corpus_records": len(rw.corpus), "wall_s": round(rw.wall, 1)})
-        b2, _ = vlib.behaviours_from_corpus(rw.corpus, max_behaviours=400, rng=rng,
-                                            need=lambda ops: any(o["op"] == "Restart" for o in ops) and any(o["op"] == "Issue" for o in ops))
+        b2, _ = vlib.behaviours_from_corpus(rw.corpus, max_behaviours=400, rng=rng, need=need_restart)
         for i, b in enumerate(b2):
             b["id"] = "w%d" % i
         behaviours += b2
@@ -203,9 +223,17 @@ def run(tier):
                 prev = ops[i - 1] if i else ""
                 kinds["after_snapshot" if prev == "Save" else "after_compaction" if prev == "Rewrite" else "log_only"] += 1
     hres = vlib.run_sharded(binary, "hist", profile, behaviours, timeout=1500)
-    for e in hres.get("errors", []):
+    xres = vlib.run_sharded(binary, "hist", profile, expiring, timeout=1500, shards=16)
+    for e in hres.get("errors", []) + xres.get("errors", []):
         chk.infra.append("history replay: " + e)
-    judge(chk, hres.get("divergences", []), "hist", profile, behaviours)
+    for k in ("checks", "restarts", "behaviours", "steps"):
+        hres[k] = hres.get(k, 0) + xres.get(k, 0)
+    hres["divergences"] = hres.get("divergences", []) + xres.get("divergences", [])
+    behaviours = behaviours + expiring
+    judge(chk, hres["divergences"], "hist", profile, behaviours)
+    if xres.get("expired_used", 0) == 0:
+        chk.infra.append("vacuous: no token was presented after its expiry (%d expiring histories, %d probes skipped for timing)"
+                         % (len(expiring), xres.get("timing_skips", 0)))
     mark("histories")
 
     # ---- 4. every-byte tampering of a real token
@@ -242,6 +270,10 @@ def run(tier):
                            "state_changed": res.get("state_changed", 0), "outcome_open": res.get("outcome_any", 0),
                            "world_rebuilds": res.get("rebuilds", 0), "slow_handlers_skipped": res.get("skipped_slow", 0),
                            "histories": len(behaviours), "history_probes": hres.get("checks", 0), "restarts": hres.get("restarts", 0), "restart_kinds": kinds,
+                           "expiring_histories": len(expiring), "expiry_waits": xres.get("expiries", 0),
+                           "probes_after_expiry": xres.get("expired_used", 0), "expiry_wait_ms_total": xres.get("waited_ms", 0),
+                           "probes_skipped_too_close_to_expiry": xres.get("timing_skips", 0) + hres.get("timing_skips", 0),
+                           "body_field_spellings": spell,
                            "sweep_requests": sres.get("requests", 0), "divergences_cases": len(divs),
                            "divergences_hist": len(hres.get("divergences", [])), "divergences_sweep": len(sres.get("divergences", []))}
     chk.cov["routes"] = {"registered": len(inv["registered"]), "mapped_shapes": len(inv["shapes"]), "spec_shapes_without_route": unbound,
